@@ -450,7 +450,9 @@ pub fn encode(blocks: &[Blk], p: &EncodeParams) -> Vec<u8> {
         for blk in data.chunks(p.block) {
             let mut c = Vec::new();
             {
-                let mut w = brotli::CompressorWriter::new(&mut c, 4096, p.quality, 22);
+                // any standard window size is conformant (RFC 7932: 10..24); it rotates with the block index and the quality
+                let lgwin = [22u32, 10, 16, 24, 18][(csizes.len() + p.quality as usize) % 5];
+                let mut w = brotli::CompressorWriter::new(&mut c, 4096, p.quality, lgwin);
                 w.write_all(blk).unwrap();
                 w.flush().unwrap();
             }
